@@ -284,7 +284,7 @@ pub fn sweep(thorough: bool, panic_only: bool) -> (u64, Vec<(String, String)>) {
     }
     // costs
     for v in [d("2"), d("-2"), d("0")] {
-        for (tot, cv) in [(false, d("3")), (true, d("6")), (false, d("0")), (true, d("-6"))] {
+        for (tot, cv) in [(false, d("3")), (true, d("6")), (false, d("0")), (true, d("-6")), (false, d("-3"))] {
             shapes.push(Post { account: "", amount: Some((v, "X")), cost: Some((tot, cv, "Y")), assertion: None });
         }
     }
